@@ -123,7 +123,7 @@ def build(repo=None):
             eng.oblige(s1, "C14:modifier-step:ValueError-exactly-for-a-repeated-modifier", z3.And(nonempty, z3.Or(*[z3.And(first == S(c), f0[fl]) for c, fl in MODS.items()])), text=text)
         else:
             eng.oblige(s1, f"C14:modifier-step:unexpected-exit[{o.kind}]", z3.BoolVal(False))
-    collect(st.obl, ["C14"], hints=[[z3.Length(text) <= 3]])
+    collect(st.obl, ["C14", "C01"], hints=[[z3.Length(text) <= 3]])
     # commutation lemma over the step contract (spec level): two distinct modifiers in either order give the same flags and rest
     def spec_step(flags, t):
         """-> (error, flags', text') for a text that starts with a modifier char"""
@@ -215,7 +215,7 @@ def build(repo=None):
                 else:
                     good = z3.And(z3.Not(V), (ivn.t == iv_old) if isinstance(ivn, Z) else z3.BoolVal(False))
                 eng.oblige(s1, "C14:token:index_variadic-is-the-index-of-the-unique-multi-axis-token", good)
-        collect(st.obl, ["C14", "C15"], hints=[[z3.Length(tok) <= 4, z3.Length(base) <= 3]])
+        collect(st.obl, ["C14", "C15", "C01"], hints=[[z3.Length(tok) <= 4, z3.Length(base) <= 3]])
     # the entry guard: a non-string specification is ValueError
     first_stmt = fn.body[0]
     guard_ok = isinstance(first_stmt, ast.If) and ast.unparse(first_stmt.test) == "not isinstance(dim_str, str)" and isinstance(first_stmt.body[0], ast.Raise) and "ValueError" in ast.unparse(first_stmt.body[0])
